@@ -5,6 +5,7 @@ import IGVerif.Proofs.ComboMulti
 import IGVerif.Proofs.ComboNorm
 import IGVerif.Proofs.ComboContent
 import IGVerif.Proofs.ComboSharedChains
+import IGVerif.Proofs.ComboMultiChains
 /-! C01 — components and combinations are parsed exactly as written. -/
 namespace IGVerif.C01
 open IGVerif
@@ -161,6 +162,28 @@ theorem shared_text_around_chains (sl sr : Option Str) (o : Op3) (l r : Combo.T)
   | comb _ _ _ ha hb' =>
     exact ⟨⟨_, _, Combo.parse_shared_chains sl sr o l r hw hsl hsr nested fuel hf, Combo.toP_shared sl sr o _ _ ha hb'⟩,
            ⟨_, _, Combo.parse_shared_stripped_chains sl sr o l r hw hsl hsr nested fuel hf, Combo.toP_shared sl sr o _ _ ha hb'⟩⟩
+
+/-- **Two groups in one component, each of which may hold chains**
+    (`(l (a [o₁] b [o₁] c) m (d [o₂] e) r)`): the first group is re-bracketed with the second still
+    as written, then the second; both nodes get the text around and between them as shared text
+    and are joined by wAND. -/
+theorem two_groups_with_chains (l m r : Option Str) (o₁ o₂ : Op3) (l₁ r₁ l₂ r₂ : Combo.T)
+    (hw₁ : Combo.wf (.bin o₁ true l₁ r₁) none) (hw₂ : Combo.wf (.bin o₂ true l₂ r₂) none)
+    (hl : ∀ t, l = some t → Combo.SWord t) (hm : ∀ t, m = some t → Combo.SWord t) (hr : ∀ t, r = some t → Combo.SWord t)
+    (nested : Bool) (fuel : Nat) (hf₁ : Combo.depth (Combo.toE (.bin o₁ true l₁ r₁)) ≤ fuel)
+    (hf₂ : Combo.depth (Combo.toE (.bin o₂ true l₂ r₂)) ≤ fuel) :
+    ∃ n out, Combo.parse false fuel
+          ('(' :: optPre l ++ Combo.rT (.bin o₁ true l₁ r₁) ++ ((' ' :: optPre m) ++ Combo.rT (.bin o₂ true l₂ r₂) ++ (optPost r ++ [')']))) nested
+          = .res ⟨n, out, Combo.cNoError⟩
+       ∧ Combo.toP n = denoteE [] [] (.multi2 l (Combo.toE (.bin o₁ true l₁ r₁)) m (Combo.toE (.bin o₂ true l₂ r₂)) r) := by
+  have hb₁ := Combo.wf_binw _ _ hw₁
+  have hb₂ := Combo.wf_binw _ _ hw₂
+  cases hb₁ with
+  | comb _ _ _ ha₁ hb₁' =>
+    cases hb₂ with
+    | comb _ _ _ ha₂ hb₂' =>
+      exact ⟨_, _, Combo.parse_multi2_chains l m r o₁ o₂ l₁ r₁ l₂ r₂ hw₁ hw₂ hl hm hr nested fuel hf₁ hf₂,
+        Combo.toP_multi2 l m r o₁ o₂ _ _ _ _ ha₁ hb₁' ha₂ hb₂'⟩
 
 /-- a value without parentheses and brackets is one leaf -/
 theorem combination_parser_plain_value (t : Str) (h : Combo.Plain t) (nested : Bool) (fuel : Nat) :
